@@ -58,9 +58,13 @@ def build(ctx, rule):
     def is_ordering(callee):
         return len([r for r in walk_own(callee.node) if isinstance(r, ast.Return) and isinstance(r.value, ast.Tuple)]) >= 2
 
-    from ..core import unroll_const_loops
+    from ..core import unroll_const_loops, inline_object_aliases, guard_clauses_to_else
 
-    for f in [unroll_const_loops(tail_inlined(repo, f0, keep=is_ordering)) for f0 in mod.funcs.values()]:
+    def _gc(f_):
+        # only the chromosome loop's "nothing to order: warn and go on" clause (a loop whose body unpacks the ordering call)
+        return guard_clauses_to_else(f_) if any(isinstance(l_, ast.For) and any(isinstance(s_, ast.If) and not s_.orelse and s_.body and isinstance(s_.body[-1], ast.Continue) and any(isinstance(x_, ast.Call) and "warning" in norm(x_.func) for x_ in ast.walk(s_)) for s_ in l_.body) for l_ in walk_own(f_.node)) else f_
+
+    for f in [inline_object_aliases(unroll_const_loops(_gc(tail_inlined(repo, f0, keep=is_ordering)))) for f0 in mod.funcs.values()]:
         for loop in [n for n in walk_own(f.node) if isinstance(n, ast.For)]:
             for st in loop.body:
                 if isinstance(st, ast.Assign) and isinstance(st.value, ast.Call) and isinstance(st.targets[0], (ast.Tuple, ast.Name)):
